@@ -1044,6 +1044,10 @@ impl RangeKey for RecordIdentifier {
 }
 
 fn system_time_now() -> u64 {
+    #[cfg(iroh_docs_verif)]
+    if let Some(micros) = crate::verif::clock_micros() {
+        return micros;
+    }
     SystemTime::now()
         .duration_since(SystemTime::UNIX_EPOCH)
         .expect("time drift")
